@@ -1,5 +1,6 @@
 import Driver.Util
 import Driver.Ext4Tree
+import Driver.Ext4Path
 import Driver.Ext4Dir
 import DiskfsModel.Model.Ext4.Bitmap
 import DiskfsModel.Model.Ext4.FileIO
@@ -7,6 +8,7 @@ import DiskfsModel.Model.Ext4.DirPack
 import DiskfsModel.Model.Ext4.DirCsum
 import DiskfsModel.Model.Ext4.Alloc
 import DiskfsModel.Model.Ext4.AllocSlow
+import DiskfsModel.Model.Ext4.Own
 import DiskfsModel.Model.Ext4.Links
 namespace Driver.Ext4Ops
 open Diskfs Diskfs.Ext4 Driver
@@ -257,6 +259,33 @@ def accDealloc (args : List String) : String :=
   let s := Alloc.deallocBlocks (argNatD args "fixed" == 1) geo s0 blocks
   s!"marked={marked}\tsbfb={s.sbFreeBlocks}\tgfb={natsStr (s.groups.map (·.freeBlocks))}\tbruns={"/".intercalate (s.groups.map fun g => runsStr (Alloc.freeRuns g.bbm))}"
 
+/-- absolute "start+count" runs (none crosses a group boundary) → runs of the machine: group, position, count -/
+def ownRuns (geo : Alloc.Geom) (s : String) : List Alloc.Run :=
+  if s == "-" || s == "" then [] else
+  (s.splitOn ",").filterMap fun t => match (t.splitOn "+").filterMap String.toNat? with
+    | [p, c] => some ((p - geo.fdb) / geo.bpg, (p - geo.fdb) % geo.bpg, c)
+    | _ => none
+
+/-- ext4own.grow: the image before an operation that makes a file grow (bitmaps, counters), the blocks the file
+    owned and its i_blocks, and the blocks it owns in addition afterwards → the ownership machine's `grow` step
+    (Model/Ext4/Own.lean) → counters, bitmaps, i_blocks afterwards and the ownership invariant before and after -/
+def ownGrow (args : List String) : String :=
+  let geo : Alloc.Geom := ⟨argNatD args "fdb", argNatD args "bpg", 1⟩
+  let bbm := ((arg args "bbm").getD "").splitOn "/"
+  let gfb := natList ((arg args "gfb").getD "-")
+  let groups : List Alloc.Group := (List.range gfb.length).map fun g =>
+    { bbm := bitsOfHex geo.bpg (bbm.getD g ""), ibm := [], freeBlocks := gfb.getD g 0, freeInodes := 0, usedDirs := 0 }
+  let o : Alloc.Own := ⟨⟨groups, argNatD args "sbfb", 0⟩,
+    [⟨argNatD args "ino", blocksOfRuns ((arg args "blocks").getD "-"), argNatD args "iblocks"⟩]⟩
+  let pre := if decide (Alloc.OwnInv geo o) then 1 else 0
+  let o' := Alloc.ostep geo o (.grow 0 (argNatD args "n") (ownRuns geo ((arg args "new").getD "-")))
+  if o' == o then s!"ok=0\tpre={pre}" else
+  match o'.files with
+  | [f] =>
+    let inv := if decide (Alloc.OwnInv geo o') then 1 else 0
+    s!"ok=1\tpre={pre}\tsbfb={o'.acc.sbFreeBlocks}\tgfb={natsStr (o'.acc.groups.map (·.freeBlocks))}\tbruns={"/".intercalate (o'.acc.groups.map fun g => runsStr (Alloc.freeRuns g.bbm))}\tiblocks={f.iblocks}\towned={f.blocks.length}\tinv={inv}"
+  | _ => "bad-state"
+
 /-- ext4links.step: the link count of the parent directory and the used-directories counters before a Mkdir /
     create / Symlink / Remove → the model's bookkeeping → the same numbers afterwards (and the new inode's) -/
 def linksStep (args : List String) : String :=
@@ -293,4 +322,6 @@ def main : IO Unit := Driver.runLoop fun op args =>
   | "ext4acc.remove" => Driver.Ext4Ops.accRemove args
   | "ext4acc.dealloc" => Driver.Ext4Ops.accDealloc args
   | "ext4links.step" => Driver.Ext4Ops.linksStep args
-  | _ => ((Driver.Ext4Tree.dispatch op args).orElse fun _ => Driver.Ext4Dir.dispatch op args).getD "unknown-op"
+  | "ext4own.grow" => Driver.Ext4Ops.ownGrow args
+  | _ => (((Driver.Ext4Tree.dispatch op args).orElse fun _ => Driver.Ext4Dir.dispatch op args).orElse fun _ =>
+      Driver.Ext4Path.dispatch op args).getD "unknown-op"
